@@ -340,8 +340,8 @@ func (cs *ContractSet) parseBlock(file string, line0 int, body string) {
 				}
 				cl.Loop, _ = strconv.Atoi(fs[0])
 				cl.Kind = fs[1]
-				if cl.Kind != "invariant" && cl.Kind != "decreases" {
-					cs.errf(file, it.line, "loop clause must be invariant or decreases")
+				if cl.Kind != "invariant" && cl.Kind != "decreases" && cl.Kind != "backedge" {
+					cs.errf(file, it.line, "loop clause must be invariant, decreases or backedge")
 					continue
 				}
 				rest = strings.TrimSpace(strings.SplitN(rest, fs[1], 2)[1])
@@ -456,6 +456,7 @@ type Env struct {
 	bound map[string]bool
 	depth int
 	water string // allocation watermark fresh() is relative to ("pre" at function entry)
+	headEnv *Env // state at the loop head (for athead)
 }
 
 func (env *Env) with(name string, tv TV) *Env {
@@ -834,6 +835,15 @@ func (e *Engine) evalCall(env *Env, n *ast.CallExpr) (Val, types.Type) {
 			}
 		}
 		return e.eval(&o, n.Args[0])
+	case "athead": // value of an expression at the head of the enclosing loop iteration (backedge clauses)
+		if !need(1) {
+			return Sc{"0"}, tInt
+		}
+		if env.headEnv == nil {
+			e.specErr("athead used outside a backedge clause")
+			return Sc{"0"}, tInt
+		}
+		return e.eval(env.headEnv, n.Args[0])
 	case "len", "cap":
 		if !need(1) {
 			return Sc{"0"}, tInt
@@ -1191,6 +1201,14 @@ func (f *frame) specEnv(h *Heap, at *ssa.BasicBlock, phis map[*ssa.Phi]Val) *Env
 
 // bindLocals resolves source-level local variable names at the head of a loop.
 func (f *frame) bindLocals(env *Env, at *ssa.BasicBlock, phis map[*ssa.Phi]Val) {
+	f.bindLocalsI(env, at, phis, false, nil)
+}
+
+// bindLocalsI: inclusive=true also takes the definitions made inside block at (used at the end of a block).
+// body, when given, is the set of blocks of the enclosing loop: names defined anywhere in the iteration are
+// visible (a clause that mentions a name of one switch case must guard on being in that case; the value of a
+// name whose block was not executed is unconstrained, which can only make the clause harder to prove).
+func (f *frame) bindLocalsI(env *Env, at *ssa.BasicBlock, phis map[*ssa.Phi]Val, inclusive bool, body map[*ssa.BasicBlock]bool) {
 	type cand struct {
 		v     ssa.Value
 		addr  bool
@@ -1198,6 +1216,7 @@ func (f *frame) bindLocals(env *Env, at *ssa.BasicBlock, phis map[*ssa.Phi]Val) 
 		idx   int
 	}
 	best := map[string]cand{}
+	pendingT := map[string]types.Type{}
 	domDepth := func(b *ssa.BasicBlock) int {
 		d := 0
 		for x := b; x != nil; x = x.Idom() {
@@ -1206,13 +1225,30 @@ func (f *frame) bindLocals(env *Env, at *ssa.BasicBlock, phis map[*ssa.Phi]Val) 
 		return d
 	}
 	for _, b := range f.fn.Blocks {
-		if !(b.Dominates(at)) || b == at {
+		if body != nil && body[b] {
+			// any executed block of the loop body
+		} else if !(b.Dominates(at)) || (b == at && !inclusive) {
 			continue
 		}
 		if _, reached := f.pcs[b]; !reached {
+			if body != nil && body[b] {
+				// a block of the iteration this path has not executed: remember the names it defines
+				for _, ins := range b.Instrs {
+					if dr, ok := ins.(*ssa.DebugRef); ok && !dr.IsAddr {
+						if id, ok := dr.Expr.(*ast.Ident); ok {
+							if vobj, isVar := dr.Object().(*types.Var); isVar && !vobj.IsField() {
+								pendingT[id.Name] = dr.X.Type()
+							}
+						}
+					}
+				}
+			}
 			continue
 		}
 		dd := domDepth(b)
+		if body != nil && body[b] {
+			dd = 1000000 + b.Index // later blocks of the iteration win
+		}
 		for i, ins := range b.Instrs {
 			if ph, isPhi := ins.(*ssa.Phi); isPhi && ph.Comment != "" {
 				if _, have := f.vals[ph]; have {
@@ -1236,6 +1272,9 @@ func (f *frame) bindLocals(env *Env, at *ssa.BasicBlock, phis map[*ssa.Phi]Val) 
 			}
 			if _, have := f.vals[dr.X]; !have {
 				if _, isC := dr.X.(*ssa.Const); !isC {
+					if body != nil && body[b] && !dr.IsAddr {
+						pendingT[id.Name] = dr.X.Type() // defined on another path of the iteration
+					}
 					continue
 				}
 			}
@@ -1256,6 +1295,12 @@ func (f *frame) bindLocals(env *Env, at *ssa.BasicBlock, phis map[*ssa.Phi]Val) 
 		} else {
 			env.vars[name] = TV{f.get(c.v), c.v.Type()}
 			delete(env.cells, name)
+		}
+	}
+	// names of the iteration that this path did not define: unconstrained values of their type
+	for name, t := range pendingT {
+		if _, ok := env.vars[name]; !ok {
+			env.vars[name] = TV{f.e.havocVal(f.prefix+"undef."+name, t), t}
 		}
 	}
 	// allocs named after variables (address-taken locals)
@@ -1291,6 +1336,24 @@ func (f *frame) bindLocals(env *Env, at *ssa.BasicBlock, phis map[*ssa.Phi]Val) 
 		p := byName[nme]
 		env.vars[nme] = TV{phis[p], p.Type()}
 		delete(env.cells, nme)
+	}
+}
+
+// bindAllocs makes the function's address-taken locals (allocation cells named after variables) visible.
+func (f *frame) bindAllocs(env *Env) {
+	for _, b := range f.fn.Blocks {
+		for _, ins := range b.Instrs {
+			if a, ok := ins.(*ssa.Alloc); ok && a.Comment != "" && !strings.Contains(a.Comment, " ") {
+				if v, have := f.vals[a]; have {
+					if _, exists := env.vars[a.Comment]; !exists {
+						env.vars[a.Comment] = TV{v, a.Type()}
+						if _, isStruct := under(a.Type().(*types.Pointer).Elem()).(*types.Struct); !isStruct {
+							env.cells[a.Comment] = true
+						}
+					}
+				}
+			}
+		}
 	}
 }
 
